@@ -420,8 +420,7 @@ pub fn parse_choice_text(input: &str) -> Result<ParsedChoiceText, CompilerError>
         } else {
             format!("{selected_start} {suffix}")
         };
-        let mut selected_tags = start_tags.clone();
-        selected_tags.extend(suffix_tags);
+        let selected_tags = suffix_tags;
         return Ok(ParsedChoiceText {
             display_text: start_text.clone(),
             selected_text: Some(selected_text),
@@ -473,8 +472,7 @@ pub fn parse_choice_text(input: &str) -> Result<ParsedChoiceText, CompilerError>
         } else {
             format!("{} {}", start_text.trim_end(), end_text)
         };
-        let mut selected_tags = start_tags.clone();
-        selected_tags.extend(end_tags);
+        let selected_tags = end_tags;
         return Ok(ParsedChoiceText {
             display_text: display,
             selected_text: Some(selected_text),
